@@ -25,6 +25,9 @@ SAFE1 = [op for op in range(0x04, 0xc0) if cpugen.length(op) == 1 and op not in 
 
 def halt_case(rng, ime, pend, op, idle, cb=None, prefix=None):
     st = cpugen.structured_state(rng)
+    if op in (0xe2, 0xf2):
+        # LD (FF00+C),A / LD A,(FF00+C): keep C on addresses the CPU-level test bus models (HRAM, IF, IE)
+        st['c'] = rng.choice(cpugen.HRAM_OFFS[:-2])
     pc = 0xc000
     flow = op in CONTROL or op in (0xc3, 0xc2, 0xca, 0xd2, 0xda, 0xcd, 0xc4, 0xcc, 0xd4, 0xdc, 0x18, 0x20, 0x28, 0x30, 0x38)
     lines = (['mayexit'] if flow else []) + ['cpu.new', cpugen.set_line(st, pc)]
